@@ -38,6 +38,7 @@ type Universe struct {
 	loops     map[*ssa.Function][]*LoopInfo
 
 	asets         map[string]*AssignSet
+	axioms        []*Clause
 	onlyWrites    map[string][]string
 	objinvs       map[string]*ObjInv // by struct type name
 	objinvFields  map[string]string  // heap key -> struct type name
@@ -182,6 +183,10 @@ func (u *Universe) addSpec(sf *SpecFile, path string) error {
 		if c.Trusted {
 			u.assumes = append(u.assumes, "trusted (body not verified): "+c.FuncName)
 		}
+	}
+	for _, a := range sf.Axioms {
+		u.axioms = append(u.axioms, a)
+		u.assumes = append(u.assumes, "assumed axiom: "+a.Text)
 	}
 	for k, v := range sf.OnlyWrites {
 		if u.onlyWrites == nil {
